@@ -388,6 +388,10 @@ pub enum CompCase {
     Real { op: RealOp, pop: Vec<Vec<Fb>>, seed: u64 },
     Bits { op: BitOp, pop: Vec<Vec<bool>>, seed: u64 },
     Perm { op: PermOp, n: usize, size: usize, seed: u64 },
+    /// A mutation instantiated with the non-default identifier `A` (`new_with_id`), its own rate 0 or 1, optionally
+    /// next to an initialised default-identified instance of the same operator whose rate is `sibling`.
+    /// which: 0 Normal, 1 Uniform, 2 PartialRandomSpread, 3 BitFlip, 4 PartialRandomBitstring, 5 Scramble
+    Identified { which: u8, own_full: bool, sibling: Option<Fb>, n: usize, dim: usize, seed: u64 },
 }
 
 pub struct CompCheck;
@@ -398,7 +402,7 @@ impl Check for CompCheck {
         "C13/components".into()
     }
     fn classes(&self) -> &'static [&'static str] {
-        &["population>=2 and dim>=3", "rate 0", "rate 1", "crossover", "odd population", "permutation operator", "DE operator", "empty population"]
+        &["population>=2 and dim>=3", "rate 0", "rate 1", "crossover", "odd population", "permutation operator", "DE operator", "empty population", "non-default identifier", "non-default identifier next to a default-identified instance with another rate"]
     }
     fn oracle(&self, c: &CompCase) -> Outcome {
         let mut cl = 0;
@@ -825,8 +829,117 @@ fn comp_oracle_inner(c: &CompCase, cl: &mut u64) -> Result<(), Failure> {
                 _ => ensure_that!(got.len() == *size, format!("C13 {name} changes the population size"), "{at}"),
             }
         }
+        CompCase::Identified { which, own_full, sibling, n, dim, seed } => {
+            use mahf::identifier::A;
+            let (n, dim, which) = (*n, *dim, *which % 6);
+            *cl |= 256;
+            if n >= 2 && dim >= 3 {
+                *cl |= 1;
+            }
+            let own = if *own_full { 1.0 } else { 0.0 };
+            *cl |= if *own_full { 4 } else { 2 };
+            if let Some(sr) = sibling {
+                if sr.f() != own {
+                    *cl |= 512;
+                }
+            }
+            let at = format!("{c:?}");
+            let mut s = seed.wrapping_mul(0x9E3779B97F4A7C15) | 1;
+            let mut next = move || {
+                s ^= s << 13;
+                s ^= s >> 7;
+                s ^= s << 17;
+                s
+            };
+            match which {
+                0..=2 => {
+                    let problem = RealP::new(dim, -10.0, 10.0, RealKind::Sphere);
+                    let pop: Vec<Vec<f64>> = (0..n).map(|_| (0..dim).map(|_| (next() % 2000) as f64 / 100.0 - 10.0).collect()).collect();
+                    let inds: Vec<_> = pop.iter().map(|s| Individual::<RealP>::new_unevaluated(s.clone())).collect();
+                    let (name, comp, sib): (&str, Box<dyn Component<RealP>>, Option<Box<dyn Component<RealP>>>) = match which {
+                        0 => ("NormalMutation", NormalMutation::<A>::new_with_id(1.0, own), sibling.map(|r| NormalMutation::new(1.0, r.f()))),
+                        1 => ("UniformMutation", UniformMutation::<A>::new_with_id(1.0, own), sibling.map(|r| UniformMutation::new(1.0, r.f()))),
+                        _ => ("PartialRandomSpread", PartialRandomSpread::<A>::new_with_id(own), sibling.map(|r| PartialRandomSpread::new(r.f()))),
+                    };
+                    let mut st = state_with(vec![inds], *seed);
+                    if let Some(sib) = &sib {
+                        run_comp_init(sib.as_ref(), &problem, &mut st, name, &at)?;
+                    }
+                    run_comp(comp.as_ref(), &problem, &mut st, name, &at)?;
+                    let got = &stack_solutions(&st)[0];
+                    ensure_that!(got.len() == n && got.iter().all(|s| s.len() == dim), format!("C13 {name} changes size or dimension"), "{at}: got {got:?}");
+                    for (a, b) in pop.iter().zip(got) {
+                        for i in 0..dim {
+                            if *own_full {
+                                // rate 1: every coordinate is redrawn from a continuous distribution
+                                ensure_that!(a[i].to_bits() != b[i].to_bits(), format!("C13 {name} with rate 1 leaves a coordinate untouched"), "{at}: coordinate {i} stays {}", a[i]);
+                            } else {
+                                ensure_that!(a[i].to_bits() == b[i].to_bits(), format!("C13 {name} mutates with rate 0"), "{at}: coordinate changed {} -> {}", a[i], b[i]);
+                            }
+                        }
+                    }
+                }
+                3 | 4 => {
+                    let problem = BitsP::new(dim);
+                    let pop: Vec<Vec<bool>> = (0..n).map(|_| (0..dim).map(|_| next() % 2 == 0).collect()).collect();
+                    let inds: Vec<_> = pop.iter().map(|s| Individual::<BitsP>::new_unevaluated(s.clone())).collect();
+                    let (name, comp, sib): (&str, Box<dyn Component<BitsP>>, Option<Box<dyn Component<BitsP>>>) = if which == 3 {
+                        ("BitFlipMutation", BitFlipMutation::<A>::new_with_id(own), sibling.map(|r| BitFlipMutation::new(r.f())))
+                    } else {
+                        ("PartialRandomBitstring", PartialRandomBitstring::<A>::new_with_id(1.0, own), sibling.map(|r| PartialRandomBitstring::new(1.0, r.f())))
+                    };
+                    let mut st = state_with(vec![inds], *seed);
+                    if let Some(sib) = &sib {
+                        run_comp_init(sib.as_ref(), &problem, &mut st, name, &at)?;
+                    }
+                    run_comp(comp.as_ref(), &problem, &mut st, name, &at)?;
+                    let got = &stack_solutions(&st)[0];
+                    ensure_that!(got.len() == n && got.iter().all(|s| s.len() == dim), format!("C13 {name} changes size or dimension"), "{at}");
+                    if !*own_full {
+                        ensure_that!(*got == pop, format!("C13 {name} mutates with rate 0"), "{at}: {got:?}");
+                    } else if which == 3 {
+                        let want: Vec<Vec<bool>> = pop.iter().map(|s| s.iter().map(|b| !b).collect()).collect();
+                        ensure_that!(*got == want, "C13 BitFlipMutation with rate 1 does not invert every bit", "{at}: {got:?}");
+                    } else {
+                        ensure_that!(got.iter().all(|s| s.iter().all(|b| *b)), "C13 PartialRandomBitstring p", "{at}: full resampling with p = 1 gave {got:?}");
+                    }
+                }
+                _ => {
+                    let len = dim.max(2);
+                    let problem = TspP::generated(len, 0, 1);
+                    let pop: Vec<Vec<usize>> = (0..n).map(|_| {
+                        let mut p: Vec<usize> = (0..len).collect();
+                        for i in (1..len).rev() {
+                            p.swap(i, (next() % (i as u64 + 1)) as usize);
+                        }
+                        p
+                    }).collect();
+                    let inds: Vec<_> = pop.iter().map(|s| Individual::<TspP>::new_unevaluated(s.clone())).collect();
+                    let comp: Box<dyn Component<TspP>> = ScrambleMutation::<A>::new_with_id(own);
+                    let sib: Option<Box<dyn Component<TspP>>> = sibling.map(|r| ScrambleMutation::new(r.f()));
+                    let mut st = state_with(vec![inds], *seed);
+                    if let Some(sib) = &sib {
+                        run_comp_init(sib.as_ref(), &problem, &mut st, "ScrambleMutation", &at)?;
+                    }
+                    run_comp(comp.as_ref(), &problem, &mut st, "ScrambleMutation", &at)?;
+                    let got = &stack_solutions(&st)[0];
+                    ensure_that!(got.len() == n && got.iter().all(|g| g.len() == len && is_permutation(g)), "C13 ScrambleMutation result is not a permutation", "{at}: {got:?}");
+                    if !*own_full {
+                        ensure_that!(*got == pop, "C13 ScrambleMutation mutates with rate 0", "{at}: {got:?}");
+                    }
+                }
+            }
+        }
     }
     Ok(())
+}
+
+fn run_comp_init<P: mahf::Problem>(comp: &dyn Component<P>, problem: &P, state: &mut State<P>, name: &str, at: &str) -> Result<(), Failure> {
+    match catch(|| comp.init(problem, state)) {
+        Ok(Ok(())) => Ok(()),
+        Ok(Err(e)) => soft_fail(Failure::new(format!("C13 {name} errs on a valid population"), format!("{at}: init of the default-identified instance: {e:#}"))).and(Err(Failure::new("skip", ""))),
+        Err(p) => soft_fail(Failure::new(format!("C13 {name} panics"), format!("{at}: init of the default-identified instance: {p}"))).and(Err(Failure::new("skip", ""))),
+    }
 }
 
 fn rate() -> impl Strategy<Value = Fb> {
@@ -840,7 +953,7 @@ fn real_pop() -> impl Strategy<Value = Vec<Vec<Fb>>> {
 fn comp_strategy() -> impl Strategy<Value = CompCase> {
     let real_op = prop_oneof![
         (prop_oneof![Just(0.0), Just(0.1), Just(3.0)].prop_map(Fb::of), rate()).prop_map(|(dev, rm)| RealOp::Normal { dev, rm }),
-        (prop_oneof![Just(0.0), Just(1e-9), Just(0.1), Just(3.0)].prop_map(Fb::of), rate()).prop_map(|(bound, rm)| RealOp::UniformM { bound, rm }),
+        (prop_oneof![3 => Just(0.0), 3 => Just(1e-9), 3 => Just(0.1), 3 => Just(3.0), 1 => Just(1e308), 1 => Just(f64::MAX), 1 => Just(f64::MIN_POSITIVE)].prop_map(Fb::of), rate()).prop_map(|(bound, rm)| RealOp::UniformM { bound, rm }),
         rate().prop_map(|rm| RealOp::Spread { rm }),
         (0usize..8, rate(), any::<bool>()).prop_map(|(n, pc, both)| RealOp::NPoint { n, pc, both }),
         (rate(), any::<bool>()).prop_map(|(pc, both)| RealOp::UniformX { pc, both }),
@@ -867,11 +980,12 @@ fn comp_strategy() -> impl Strategy<Value = CompCase> {
         4 => (real_op, real_pop(), any::<u64>()).prop_map(|(op, pop, seed)| CompCase::Real { op, pop, seed }),
         2 => (bit_op, (1usize..9).prop_flat_map(|dim| proptest::collection::vec(proptest::collection::vec(any::<bool>(), dim), 0..10)), any::<u64>()).prop_map(|(op, pop, seed)| CompCase::Bits { op, pop, seed }),
         4 => (perm_op, 2usize..9, 0usize..8, any::<u64>()).prop_map(|(op, n, size, seed)| CompCase::Perm { op, n, size, seed }),
+        1 => (0u8..6, any::<bool>(), proptest::option::of(rate()), 1usize..6, 1usize..7, any::<u64>()).prop_map(|(which, own_full, sibling, n, dim, seed)| CompCase::Identified { which, own_full, sibling, n, dim, seed }),
     ]
 }
 
 pub fn run_all(ctx: &mut Ctx, replay: Option<&Path>) {
-    ctx.rule("helpers (exhaustive): circular_swap vs circular_swap2 on all ordered tuples of >= 2 distinct indices (n <= 6/7) against an independent circular-shift reference; translocate_slice vs translocate_slice2 on all (n, start <= end <= n, index) that fit; multi_point_crossover / uniform_crossover on parent pairs over {0,1,2} and on fully distinguishable parents with all cut sets (ordered and unordered) and all masks against a parity / mask reference; arithmetic_crossover on a value x alpha grid (convexity, sum conservation, exact weights); cycle_crossover on all pairs of permutations (n <= 5) against a cycle reference. components (proptest): every mutation and recombination component on random populations (size 0-9, dim 1-8), rates/probabilities from {0, 0.05, 0.5, 1, random}, both insert modes; well-formedness, gene conservation, rate-0 identity, offspring counts, exact DE mutation, no panic / Err on a valid population, documented constructor ranges; non-trivial = helper case with >= 3 indices / a moved non-empty slice / >= 2 cuts / >= 2 cycles, component case with population >= 2 and dim >= 3; distinct by case");
+    ctx.rule("helpers (exhaustive): circular_swap vs circular_swap2 on all ordered tuples of >= 2 distinct indices (n <= 6/7) against an independent circular-shift reference; translocate_slice vs translocate_slice2 on all (n, start <= end <= n, index) that fit; multi_point_crossover / uniform_crossover on parent pairs over {0,1,2} and on fully distinguishable parents with all cut sets (ordered and unordered) and all masks against a parity / mask reference; arithmetic_crossover on a value x alpha grid (convexity, sum conservation, exact weights); cycle_crossover on all pairs of permutations (n <= 5) against a cycle reference. components (proptest): every mutation and recombination component on random populations (size 0-9, dim 1-8), rates/probabilities from {0, 0.05, 0.5, 1, random}, both insert modes; well-formedness, gene conservation, rate-0 identity, offspring counts, exact DE mutation, no panic / Err on a valid population, documented constructor ranges, UniformMutation bounds up to f64::MAX, the identifier-generic mutations instantiated with a non-default identifier alone and next to a default-identified instance with a different rate (each instance must obey its own rate); non-trivial = helper case with >= 3 indices / a moved non-empty slice / >= 2 cuts / >= 2 cycles, component case with population >= 2 and dim >= 3; distinct by case");
     ctx.assume("NPointCrossover gets 1 <= n < dim, uniform-crossover masks have the parents' length, parents have equal length, permutation operators get length >= 2, DEMutation inputs are in the documented block layout (a malformed one must be an Err)");
     ctx.assume("translocate_slice: a range may end at the end of the permutation (Range::end is exclusive)");
     let h = HelperCheck;
@@ -885,5 +999,14 @@ pub fn run_all(ctx: &mut Ctx, replay: Option<&Path>) {
     let thorough = ctx.tier == crate::engine::Tier::Thorough;
     ctx.exhaustive(&h, if thorough { "bounds: circular swap n <= 7, translocate n <= 9, crossovers over {0,1,2} length <= 5, distinguishable parents length <= 7, permutations n <= 5" } else { "bounds: circular swap n <= 6, translocate n <= 8, crossovers over {0,1,2} length <= 4, distinguishable parents length <= 6, permutations n <= 5" }, helper_cases(thorough).into_iter());
     ctx.random(&h, helper_strategy(), ctx.tier.pick(60_000, 600_000));
+    ctx.exhaustive(
+        &k,
+        "6 identifier-generic mutations instantiated with identifier A x own rate {0, 1} x {alone, next to a default-identified instance with rate 0, 1} x 2 population shapes",
+        (0u8..6).flat_map(|which| {
+            [false, true].into_iter().flat_map(move |own_full| {
+                [None, Some(0.0), Some(1.0)].into_iter().flat_map(move |sib| [(1usize, 1usize), (3, 4)].into_iter().map(move |(n, dim)| CompCase::Identified { which, own_full, sibling: sib.map(Fb::of), n, dim, seed: 11 + which as u64 }))
+            })
+        }),
+    );
     ctx.random(&k, comp_strategy(), ctx.tier.pick(80_000, 800_000));
 }
